@@ -59,7 +59,7 @@ PROPS = {
         trusted=CODEC_TRUST + ["Model.Stream hand-written from message.go readHeader/readBody and io.ReadFull's contract"],
     ),
     "C07": dict(
-        domains=[("retry", "write", 6000, 100000), ("retry", "exhaustive", 900, 900), ("retry", "conn", 1500, 20000), ("conn", "cwrite", 150, 1500), ("conn", "lw", 200, 2000), ("conn", "pipeline", 60, 600), ("resource", "buflen", 1, 1)],
+        domains=[("retry", "write", 6000, 100000), ("retry", "exhaustive", 900, 900), ("retry", "conn", 1500, 20000), ("conn", "cwrite", 150, 1500), ("conn", "lw", 200, 2000), ("conn", "pipeline", 60, 600), ("resource", "buflen", 1, 1), ("sctp", "wstall", 16, 200)],
         relevant=["C07:"],
         theorems=["DV.Props.C07."+t for t in ["C07_retry","C07_retry_stops","C07_retry_conn","C07_failed_write_is_final","C07_conn_next","C07_whole","C07_exclusive","C07_once_ordered","C07_quiescent","C07_pool_exclusive","C07_pool_double_put_counterexample","C07_pool_gen","C07_pool_capacity","C07_pool_capacity_counterexample","C07_pool_cap_gen","C07_gen"]],
         gen_obligations=["Gen.responseWriteLocked","Gen.MessageBufferLength","Gen.responseWriteReturns","Gen.serverResetCalls","Gen.connBufferSources","Gen.poolUsers","Gen.poolPrimitives","Gen.writerBufferReuseCond"],
@@ -142,7 +142,7 @@ PROPS = {
     "C19": dict(
         domains=[("sctp", "demux", 6000, 100000), ("sctp", "exhaustive", 1, 1), ("sctp", "serve", 300, 4000), ("retry", "write", 2000, 30000)],
         relevant=["C19:"],
-        theorems=["DV.Props.C19."+t for t in ["C19_perstream","C19_reference","C19_one_message","C19_complete","C19_gen"]],
+        theorems=["DV.Props.C19."+t for t in ["C19_perstream","C19_reference","C19_one_message","C19_complete","splitMsgs_whole","C19_whole_streams","C19_gen"]],
         gen_obligations=["Gen.sctpHeaderReads","Gen.sctpHeaderPins","Gen.sctpBodyReads","Gen.sctpAtLeastReads","Gen.connResetsStream","Gen.sctpWriteStreamCalls","Gen.HeaderLength"],
         trusted=CODEC_TRUST + ["Model.Sctp hand-written from diam/network_sctp.go (ReadAny, ReadStream, ReadAtLeast, verifyStreamBuff, bufferStreamData) and message.go readHeader/readBody; the kernel SCTP socket is replaced by the in-memory backend of the 'verif' hook (diam/verif_sctp.go): chunks are delivered in order, a chunk larger than the caller's buffer continues on the next read, every read carries stream information"],
     ),
